@@ -27,7 +27,7 @@ RULE = (
     'checkpoint point.  evaluations = runs; counters report round trips per state and medium.  Non-trivial = the run '
     'produced at least one round trip in a non-CREATED state; distinct = distinct event-log digest.'
 )
-BUDGET = {'quick': (12000, 55), 'thorough': (1_000_000, 600)}
+BUDGET = {'quick': (25000, 55), 'thorough': (1_000_000, 600)}
 COMPONENTS = {
     'real': common.COMPONENTS['real'] + ['plumpy.persistence (Bundle, Savable, auto_persist, SavableFuture, LoadSaveContext)',
                                           'plumpy.workchains steppers', 'plumpy.mixins.ContextMixin', 'plumpy.loaders',
